@@ -90,7 +90,11 @@ func genOps(t *rapid.T, n, keys int, c13 bool) []Op {
 		x := rapid.IntRange(0, 99).Draw(t, "kind")
 		switch {
 		case x < w[0]:
-			ops = append(ops, Op{Kind: "tx", N: node("n"), Subs: genSubs(t, keys)})
+			kind := "tx"
+			if rapid.IntRange(0, 7).Draw(t, "txfail") == 0 {
+				kind = "txfail" // the leaseholder's storage engine refuses the commit
+			}
+			ops = append(ops, Op{Kind: kind, N: node("n"), Subs: genSubs(t, keys)})
 		case x < w[1]:
 			ops = append(ops, Op{Kind: "inject", N: node("n"), L: rapid.IntRange(0, 1).Draw(t, "l"),
 				Gap: rapid.SampledFrom([]int{1, 1, 1, 2, 5}).Draw(t, "gap"), Subs: genSubs(t, keys)})
